@@ -1,0 +1,71 @@
+//go:build verif
+
+// Contracts for package z, checked by /verif/govc.  Comment-only file: with the
+// build tag off the compiler never sees it, with the tag on it adds no code.
+// Specification functions that other packages' contracts use are exported (Gc*).
+package z
+
+// ---------------------------------------------------------------- bbloom.go (C19)
+
+//@ spec GcMaskOK() bool = len(mask) == 8 && forall k int :: 0 <= k && k < 8 ==> mask[k] == uint8(1) << uint(k)
+//@ spec opaque GcBitS(bs []uint64, idx uint64) bool = (bs[idx>>6]>>(idx&63))&1 == 1
+//@ spec opaque GcPosV(shift, size, hash, i uint64) uint64 = ((hash >> shift) + i*(hash<<shift>>shift)) & size
+//@ spec opaque GcHasV(bs []uint64, shift, size, setLocs, hash uint64) bool = forall i uint64 :: i < setLocs ==> GcBitS(bs, GcPosV(shift, size, hash, i))
+//@ spec GcWfBloom(bl *Bloom) bool = bl != nil && len(bl.bitset) > 0 && bl.size == uint64(len(bl.bitset))*64-1 && GcMaskOK()
+//@ spec GcBit(bl *Bloom, idx uint64) bool = GcBitS(bl.bitset, idx)
+//@ spec GcHas(bl *Bloom, hash uint64) bool = GcHasV(bl.bitset, bl.shift, bl.size, bl.setLocs, hash)
+
+//@ lemma [C19] GcPosInRange(shift, size, hash, i uint64): GcPosV(shift, size, hash, i) <= size
+//@   reveal GcPosV
+
+//@ func (bl *Bloom) Set(idx uint64)
+//@   reveal GcBitS
+//@   requires GcWfBloom(bl) && idx <= bl.size
+//@   modifies bl.bitset[*]
+//@   ensures [C19] #set GcBit(bl, idx)
+//@   ensures [C19] #others forall j uint64 :: j <= bl.size && j != idx ==> GcBit(bl, j) == old(GcBit(bl, j))
+//@   ensures [C19] #monotone forall j uint64 :: j <= bl.size && old(GcBit(bl, j)) ==> GcBit(bl, j)
+
+//@ func (bl *Bloom) IsSet(idx uint64) bool
+//@   requires GcWfBloom(bl) && idx <= bl.size
+//@   ensures [C19] #value result == GcBit(bl, idx)
+
+//@ func (bl *Bloom) Add(hash uint64)
+//@   uses GcPosInRange
+//@   requires GcWfBloom(bl)
+//@   modifies bl.bitset[*], bl.ElemNum
+//@   loop 1 invariant i <= bl.setLocs
+//@   loop 1 invariant #hint GcPosV(bl.shift, bl.size, hash, i) <= bl.size
+//@   loop 1 invariant forall j uint64 :: j < i ==> GcBit(bl, GcPosV(bl.shift, bl.size, hash, j))
+//@   loop 1 invariant forall x uint64 :: x <= bl.size && old(GcBit(bl, x)) ==> GcBit(bl, x)
+//@   ensures [C19] #present GcHas(bl, hash)
+//@   ensures [C19] #monotone forall x uint64 :: x <= bl.size && old(GcBit(bl, x)) ==> GcBit(bl, x)
+
+//@ func (bl Bloom) Has(hash uint64) bool
+//@   uses GcPosInRange
+//@   requires len(bl.bitset) > 0 && bl.size == uint64(len(bl.bitset))*64-1 && GcMaskOK()
+//@   loop 1 invariant #hint GcPosV(bl.shift, bl.size, hash, i) <= bl.size
+//@   loop 1 invariant forall j uint64 :: j < i ==> GcBitS(bl.bitset, GcPosV(bl.shift, bl.size, hash, j))
+//@   ensures [C19] #value result == GcHasV(bl.bitset, bl.shift, bl.size, bl.setLocs, hash)
+
+//@ func (bl *Bloom) AddIfNotHas(hash uint64) bool
+//@   requires GcWfBloom(bl)
+//@   modifies bl.bitset[*], bl.ElemNum
+//@   ensures [C19] #result result == !old(GcHas(bl, hash))
+//@   ensures [C19] #present GcHas(bl, hash)
+//@   ensures [C19] #monotone forall x uint64 :: x <= bl.size && old(GcBit(bl, x)) ==> GcBit(bl, x)
+//@   ensures [C19] #unchanged !result ==> forall x uint64 :: x <= bl.size ==> GcBit(bl, x) == old(GcBit(bl, x))
+
+//@ func (bl *Bloom) Clear()
+//@   reveal GcBitS
+//@   requires GcWfBloom(bl)
+//@   modifies bl.bitset[*]
+//@   loop 1 invariant -1 <= rangeindex && rangeindex <= len(bl.bitset)
+//@   loop 1 invariant forall j int :: 0 <= j && j <= rangeindex && j < len(bl.bitset) ==> bl.bitset[j] == 0
+//@   ensures [C19] #empty forall x uint64 :: x <= bl.size ==> !GcBit(bl, x)
+
+//@ func getSize(ui64 uint64) (size uint64, exponent uint64)
+//@   loop 1 invariant size == 0 || (exponent <= 63 && size == uint64(1)<<exponent)
+//@   loop 1 invariant size > 1 ==> size/2 < ite(ui64 < 512, 512, ui64)
+//@   ensures [C19] #pow2 exponent <= 63 && size == uint64(1)<<exponent
+//@   ensures [C19] #bound size >= ui64 && size >= 512 && (size == 512 || size/2 < ui64)
